@@ -203,13 +203,15 @@ func c16Case(o *Out, r *Rng) {
 		o.Count("arrangement=" + kind)
 		o.Count(fmt.Sprintf("loads=%d", len(docs)))
 		o.Emit(Case{
-			Term: N("c16", A(kind), LS(dt), B(base.ok), B(hasSchemaBlock)),
-			Obs:  N("obs", B(a.ok), B(sdlSame), B(introSame)),
-			Meta: map[string]interface{}{"arrangement": kind, "docs": docs, "base_ok": base.ok, "intro_diff": diff},
+			Term:       N("c16", A(kind), LS(dt), B(base.ok), B(hasSchemaBlock)),
+			Obs:        N("obs", B(a.ok), B(sdlSame), B(introSame)),
+			Meta:       map[string]interface{}{"arrangement": kind, "docs": docs, "base_ok": base.ok, "intro_diff": diff},
 			Nontrivial: true,
 		})
 	}
-	emit = func(kind string, docsDefs [][]*sDef, docs []string, modOrder bool) { emitB(base, kind, docsDefs, docs, modOrder) }
+	emit = func(kind string, docsDefs [][]*sDef, docs []string, modOrder bool) {
+		emitB(base, kind, docsDefs, docs, modOrder)
+	}
 	// a set that is ill-formed only across definitions: an interface extended with a field its implementers lack.
 	// One document and the split "everything, then the extension" must both be refused.
 	if r.Chance(35) {
@@ -374,9 +376,9 @@ func c16Case(o *Out, r *Rng) {
 				o.Count("extend-order: input type extended by two or more fields")
 			}
 			o.Emit(Case{
-				Term: N("c16o", B(multiInput), B(b0.ok)),
-				Obs:  N("obs", B(a0.ok), B(orderSame)),
-				Meta: map[string]interface{}{"arrangement": "extend-order", "docs": []string{b.String() + x.String()}, "inline_sdl": b0.sdl, "extended_sdl": a0.sdl, "sdl_same": a0.sdl == b0.sdl, "intro_diff": firstDiff(canon(a0.intro), canon(b0.intro))},
+				Term:       N("c16o", B(multiInput), B(b0.ok)),
+				Obs:        N("obs", B(a0.ok), B(orderSame)),
+				Meta:       map[string]interface{}{"arrangement": "extend-order", "docs": []string{b.String() + x.String()}, "inline_sdl": b0.sdl, "extended_sdl": a0.sdl, "sdl_same": a0.sdl == b0.sdl, "intro_diff": firstDiff(canon(a0.intro), canon(b0.intro))},
 				Nontrivial: true,
 			})
 		}
@@ -454,6 +456,15 @@ var c16Table = []struct {
 	{"extend-implied-schema",
 		"type Query { a: Int }\ntype M { b: Int }\nextend schema { mutation: M }",
 		[]string{"type Query { a: Int }\ntype M { b: Int }", "extend schema { mutation: M }"}},
+	{"repeated-directive-on-a-type",
+		"directive @m on OBJECT\ntype Query @m @m { a: Int }",
+		[]string{"directive @m on OBJECT\ntype Query @m { a: Int }", "extend type Query @m"}},
+	{"repeated-directive-on-a-type-one-document-extension",
+		"directive @m on OBJECT\ntype Query @m @m { a: Int }",
+		[]string{"directive @m on OBJECT\ntype Query @m { a: Int }\nextend type Query @m"}},
+	{"implied-schema-root-not-an-object",
+		"type Query { a: Int }\ninput In { x: Int }\nschema { query: Query mutation: In }",
+		[]string{"type Query { a: Int }\ninput In { x: Int }", "extend schema { mutation: In }"}},
 	{"extend-implied-schema-extension-first",
 		"extend schema { mutation: M }\ntype Query { a: Int }\ntype M { b: Int }",
 		[]string{"type M { b: Int }", "type Query { a: Int }", "extend schema { mutation: M }"}},
@@ -465,9 +476,9 @@ func c16FixedTable(o *Out) {
 		same := a.ok && b.ok && canonSDL(a.sdl, false) == canonSDL(b.sdl, false) && canon(a.intro) == canon(b.intro)
 		o.Count("arrangement=fixed-table")
 		o.Emit(Case{
-			Term: N("c16t", A(e.name)),
-			Obs:  N("obs", B(a.ok), B(b.ok), B(same)),
-			Meta: map[string]interface{}{"arrangement": "fixed-table " + e.name, "docs": e.many, "one_document": e.one, "sdl_one": a.sdl, "sdl_many": b.sdl},
+			Term:       N("c16t", A(e.name)),
+			Obs:        N("obs", B(a.ok), B(b.ok), B(same)),
+			Meta:       map[string]interface{}{"arrangement": "fixed-table " + e.name, "docs": e.many, "one_document": e.one, "sdl_one": a.sdl, "sdl_many": b.sdl},
 			Nontrivial: true,
 		})
 	}
